@@ -92,43 +92,44 @@ def run(ctx):
     w = ctx.unit(witness_unit('c17.cc'))
 
     # ---------------- R1
-    R = 'C17-R1'
-    ctors = u.func('phosg::Arguments::Arguments')
-    sc = [f for f in ctors if len(params_of(f)) == 1 and (qtype(params_of(f)[0]) or '').replace('std::', '') in ('const string &', 'const basic_string<char> &')]
-    ctx.require(len(sc) == 1, 'Arguments(const std::string&) not found')
-    calls = [call_name(c) for c in walk(body_of(sc[0])) if c.get('kind') in ('CallExpr', 'CXXMemberCallExpr') and call_name(c) in ('split_args', 'parse', 'split', 'split_context')]
-    ctx.check(calls == ['split_args', 'parse'], R, 'string-ctor|split_args-then-parse', sc[0], 'a single command-line string is tokenised by split_args, then classified', 'the string constructor calls %s' % calls)
-    from props.c08 import check_split_args_quotes
-    check_split_args_quotes(ctx, ctx.unit(repo_unit('Strings.cc')), R)
-    # the classified containers are built by parse() alone: a getter that inserts (map operator[],
-    # emplace, ...) makes an absent option "present without a value" for every later getter
-    MUT = ('emplace', 'emplace_back', 'push_back', 'insert', 'try_emplace', 'insert_or_assign', 'erase', 'clear', 'swap', 'resize', 'pop_back', 'operator=')
-    nmut = 0
-    seen_fn = set()
-    for unit_ in (u, w):
-        for f in unit_.functions:
-            q = unit_.qualname(f)
-            if not q.startswith('phosg::Arguments::') or body_of(f) is None or is_dependent_pattern(f, unit_):
-                continue
-            key_f = (f.get('mangledName') or q)
-            if key_f in seen_fn:
-                continue
-            seen_fn.add(key_f)
-            for x in walk(body_of(f)):
-                tgt = None
-                if x.get('kind') == 'CXXOperatorCallExpr' and call_name(x) in ('operator[]', 'operator=') and len(kids(x)) >= 2 and canon(kids(x)[1]) in ('this.named', 'this.positional'):
-                    if call_name(x) == 'operator[]' and canon(kids(x)[1]) == 'this.positional':
-                        continue    # vector subscripts do not insert
-                    tgt = (canon(kids(x)[1]), call_name(x))
-                if x.get('kind') == 'CXXMemberCallExpr' and call_name(x) in MUT and canon(member_call_object(x)) in ('this.named', 'this.positional'):
-                    tgt = (canon(member_call_object(x)), call_name(x))
-                if tgt is None:
+    with ctx.section('C17-R1', 'C17'):
+        R = 'C17-R1'
+        ctors = u.func('phosg::Arguments::Arguments')
+        sc = [f for f in ctors if len(params_of(f)) == 1 and (qtype(params_of(f)[0]) or '').replace('std::', '') in ('const string &', 'const basic_string<char> &')]
+        ctx.require(len(sc) == 1, 'Arguments(const std::string&) not found')
+        calls = [call_name(c) for c in walk(body_of(sc[0])) if c.get('kind') in ('CallExpr', 'CXXMemberCallExpr') and call_name(c) in ('split_args', 'parse', 'split', 'split_context')]
+        ctx.check(calls == ['split_args', 'parse'], R, 'string-ctor|split_args-then-parse', sc[0], 'a single command-line string is tokenised by split_args, then classified', 'the string constructor calls %s' % calls)
+        from props.c08 import check_split_args_quotes
+        check_split_args_quotes(ctx, ctx.unit(repo_unit('Strings.cc')), R)
+        # the classified containers are built by parse() alone: a getter that inserts (map operator[],
+        # emplace, ...) makes an absent option "present without a value" for every later getter
+        MUT = ('emplace', 'emplace_back', 'push_back', 'insert', 'try_emplace', 'insert_or_assign', 'erase', 'clear', 'swap', 'resize', 'pop_back', 'operator=')
+        nmut = 0
+        seen_fn = set()
+        for unit_ in (u, w):
+            for f in unit_.functions:
+                q = unit_.qualname(f)
+                if not q.startswith('phosg::Arguments::') or body_of(f) is None or is_dependent_pattern(f, unit_):
                     continue
-                nmut += 1
-                okm = f.get('name') in ('parse',) or f.get('kind') == 'CXXConstructorDecl'
-                ctx.check(okm, R, '%s|container-built-by-parse-only|%s.%s@%s' % (f.get('name'), tgt[0], tgt[1], x.get('_line')), x, '%s.%s inside %s' % (tgt[0], tgt[1], f.get('name')),
-                          '%s modifies %s through %s: after this call an option that was never given exists with no value, so later getters throw or report it present' % (f.get('name'), tgt[0], tgt[1]))
-    ctx.require(nmut >= 4, 'no insertion into named/positional found (expected in parse)')
+                key_f = (f.get('mangledName') or q)
+                if key_f in seen_fn:
+                    continue
+                seen_fn.add(key_f)
+                for x in walk(body_of(f)):
+                    tgt = None
+                    if x.get('kind') == 'CXXOperatorCallExpr' and call_name(x) in ('operator[]', 'operator=') and len(kids(x)) >= 2 and canon(kids(x)[1]) in ('this.named', 'this.positional'):
+                        if call_name(x) == 'operator[]' and canon(kids(x)[1]) == 'this.positional':
+                            continue    # vector subscripts do not insert
+                        tgt = (canon(kids(x)[1]), call_name(x))
+                    if x.get('kind') == 'CXXMemberCallExpr' and call_name(x) in MUT and canon(member_call_object(x)) in ('this.named', 'this.positional'):
+                        tgt = (canon(member_call_object(x)), call_name(x))
+                    if tgt is None:
+                        continue
+                    nmut += 1
+                    okm = f.get('name') in ('parse',) or f.get('kind') == 'CXXConstructorDecl'
+                    ctx.check(okm, R, '%s|container-built-by-parse-only|%s.%s@%s' % (f.get('name'), tgt[0], tgt[1], x.get('_line')), x, '%s.%s inside %s' % (tgt[0], tgt[1], f.get('name')),
+                              '%s modifies %s through %s: after this call an option that was never given exists with no value, so later getters throw or report it present' % (f.get('name'), tgt[0], tgt[1]))
+        ctx.require(nmut >= 4, 'no insertion into named/positional found (expected in parse)')
     # ---------------- R5: parse() evaluated (E-TABLE) on token-shape representatives and short lists
     R5 = 'C17-R5'
     from peval import PEval, Rec, VecL, MapL, Str as PStr, Lit as PLit, Undecided as PUnd, Fault as PFault, Thrown as PThrown
@@ -329,210 +330,213 @@ def run(ctx):
         ctx.bad = real_bad
 
     # ---------------- R2
-    R = 'C17-R2'
-    accessors = [f for f in w.functions if strip_targs(w.qualname(f)).startswith('phosg::Arguments::get') and not is_dependent_pattern(f, w)]
-    ctx.require(len(accessors) >= 20, 'Arguments accessor instantiations not found (%d)' % len(accessors))
-    seen = set()
-    n_text = 0
-    for f in accessors:
-        lab = '%s<%s>(%s)' % (f['name'], ','.join(t.replace('std::', '') for t in targs(f)), ','.join((qtype(p) or '').replace('std::', '') for p in params_of(f)))
-        if lab in seen:
-            continue
-        seen.add(lab)
-        body = body_of(f)
-        texts = [x for x in walk(body) if x.get('kind') == 'MemberExpr' and x.get('name') == 'text' and 'ArgText' in (dtype(x['inner'][0]) or '')]
-        for i, t in enumerate(texts):
-            n_text += 1
-            ctx.fn('Arguments::' + lab)
-            base = canon(t['inner'][0])
-            blk = enclosing(t, ('CompoundStmt',))
-            marks = [s for s in kids(blk) if strip(s).get('kind') == 'BinaryOperator' and nf(strip(s)) == '(%s.used = 1)' % base]
-            ctx.check(len(marks) == 1, R, '%s|text-use#%d-marks-used' % (lab, i), t, '%s.used = true next to the use of %s.text' % (base, base),
-                      '%s.text is handed out without setting %s.used: assert_none_unused() then reports an argument that was read' % (base, base))
-            # the element that is marked must be the stored one, not an element of a copy of the container
-            cp = copy_origin(t['inner'][0], body, w)
-            if cp is not None:
-                ctx.bad(R, '%s|text-use#%d-marks-stored-element' % (lab, i), cp, '%s is an element of `%s`, a by-value copy of the stored arguments: setting %s.used marks the copy, the stored argument stays unused and assert_none_unused() reports an argument that was read' % (base, src_text(cp, 60), base))
-    ctx.require(n_text >= 8, 'uses of ArgText::text not found (%d)' % n_text)
-    anu = u.func('phosg::Arguments::assert_none_unused')[0]
-    ctx.fn('Arguments::assert_none_unused')
-    rec = u.record_of(anu)
-    holders = sorted(c['name'] for c in kids(rec) if c.get('kind') == 'FieldDecl' and 'ArgText' in (qtype(c) or '') + (c.get('type', {}).get('desugaredQualType') or ''))
-    walked = set()
-    for x in walk(body_of(anu)):
-        if x.get('kind') == 'MemberExpr' and x.get('name') in holders and (not x.get('inner') or is_this(x['inner'][0])):
-            walked.add(x['name'])
-    ctx.check(holders == ['named', 'positional'] and walked == set(holders), R, 'assert_none_unused|all-containers', anu, 'walks %s' % holders, 'assert_none_unused does not inspect %s' % sorted(set(holders) - walked))
-    # every throw is reached exactly under `!entry.used` (an `if (used) continue;` before it is the same
-    # thing); nothing else leaves a loop
-    throws_ = [t for t in walk(body_of(anu)) if t.get('kind') == 'CXXThrowExpr']
-    okt = len(throws_) == 2 and all('invalid_argument' in (dtype(kids(t)[0]) or '') for t in throws_)
-    for t in throws_:
-        fs_ = [(nf(n_), pol_) for n_, pol_ in atoms(path_facts(t))]
-        used_ = [f_ for f_ in fs_ if f_[0].endswith('.used')]
-        other_ = [f_ for f_ in fs_ if not f_[0].endswith('.used')]
-        okt = okt and len(used_) == 1 and bool(re.match(r'^[\w\[\]\.]+\.used$', used_[0][0])) and used_[0][1] is False and all('.size()' in f_[0] and f_[1] for f_ in other_)
-    loops_ = [x for x in walk(body_of(anu)) if x.get('kind') in LOOPS]
-    okt = okt and len(loops_) == 3 and not any(x.get('kind') in ('BreakStmt', 'ReturnStmt') for x in walk(body_of(anu)))
-    for c_ in [x for x in walk(body_of(anu)) if x.get('kind') == 'ContinueStmt']:
-        fs_ = [(nf(n_), pol_) for n_, pol_ in atoms(path_facts(c_))]
-        used_ = [f_ for f_ in fs_ if f_[0].endswith('.used')]
-        okt = okt and len(used_) == 1 and used_[0][1] is True and all('.size()' in f_[0] and f_[1] for f_ in fs_ if f_ not in used_)
-    ctx.check(okt, R, 'assert_none_unused|throws-on-unused', anu, 'every entry is tested; an unused one throws invalid_argument', 'assert_none_unused no longer tests every entry / throws invalid_argument')
+    with ctx.section('C17-R2', 'C17'):
+        R = 'C17-R2'
+        accessors = [f for f in w.functions if strip_targs(w.qualname(f)).startswith('phosg::Arguments::get') and not is_dependent_pattern(f, w)]
+        ctx.require(len(accessors) >= 20, 'Arguments accessor instantiations not found (%d)' % len(accessors))
+        seen = set()
+        n_text = 0
+        for f in accessors:
+            lab = '%s<%s>(%s)' % (f['name'], ','.join(t.replace('std::', '') for t in targs(f)), ','.join((qtype(p) or '').replace('std::', '') for p in params_of(f)))
+            if lab in seen:
+                continue
+            seen.add(lab)
+            body = body_of(f)
+            texts = [x for x in walk(body) if x.get('kind') == 'MemberExpr' and x.get('name') == 'text' and 'ArgText' in (dtype(x['inner'][0]) or '')]
+            for i, t in enumerate(texts):
+                n_text += 1
+                ctx.fn('Arguments::' + lab)
+                base = canon(t['inner'][0])
+                blk = enclosing(t, ('CompoundStmt',))
+                marks = [s for s in kids(blk) if strip(s).get('kind') == 'BinaryOperator' and nf(strip(s)) == '(%s.used = 1)' % base]
+                ctx.check(len(marks) == 1, R, '%s|text-use#%d-marks-used' % (lab, i), t, '%s.used = true next to the use of %s.text' % (base, base),
+                          '%s.text is handed out without setting %s.used: assert_none_unused() then reports an argument that was read' % (base, base))
+                # the element that is marked must be the stored one, not an element of a copy of the container
+                cp = copy_origin(t['inner'][0], body, w)
+                if cp is not None:
+                    ctx.bad(R, '%s|text-use#%d-marks-stored-element' % (lab, i), cp, '%s is an element of `%s`, a by-value copy of the stored arguments: setting %s.used marks the copy, the stored argument stays unused and assert_none_unused() reports an argument that was read' % (base, src_text(cp, 60), base))
+        ctx.require(n_text >= 8, 'uses of ArgText::text not found (%d)' % n_text)
+        anu = u.func('phosg::Arguments::assert_none_unused')[0]
+        ctx.fn('Arguments::assert_none_unused')
+        rec = u.record_of(anu)
+        holders = sorted(c['name'] for c in kids(rec) if c.get('kind') == 'FieldDecl' and 'ArgText' in (qtype(c) or '') + (c.get('type', {}).get('desugaredQualType') or ''))
+        walked = set()
+        for x in walk(body_of(anu)):
+            if x.get('kind') == 'MemberExpr' and x.get('name') in holders and (not x.get('inner') or is_this(x['inner'][0])):
+                walked.add(x['name'])
+        ctx.check(holders == ['named', 'positional'] and walked == set(holders), R, 'assert_none_unused|all-containers', anu, 'walks %s' % holders, 'assert_none_unused does not inspect %s' % sorted(set(holders) - walked))
+        # every throw is reached exactly under `!entry.used` (an `if (used) continue;` before it is the same
+        # thing); nothing else leaves a loop
+        throws_ = [t for t in walk(body_of(anu)) if t.get('kind') == 'CXXThrowExpr']
+        okt = len(throws_) == 2 and all('invalid_argument' in (dtype(kids(t)[0]) or '') for t in throws_)
+        for t in throws_:
+            fs_ = [(nf(n_), pol_) for n_, pol_ in atoms(path_facts(t))]
+            used_ = [f_ for f_ in fs_ if f_[0].endswith('.used')]
+            other_ = [f_ for f_ in fs_ if not f_[0].endswith('.used')]
+            okt = okt and len(used_) == 1 and bool(re.match(r'^[\w\[\]\.]+\.used$', used_[0][0])) and used_[0][1] is False and all('.size()' in f_[0] and f_[1] for f_ in other_)
+        loops_ = [x for x in walk(body_of(anu)) if x.get('kind') in LOOPS]
+        okt = okt and len(loops_) == 3 and not any(x.get('kind') in ('BreakStmt', 'ReturnStmt') for x in walk(body_of(anu)))
+        for c_ in [x for x in walk(body_of(anu)) if x.get('kind') == 'ContinueStmt']:
+            fs_ = [(nf(n_), pol_) for n_, pol_ in atoms(path_facts(c_))]
+            used_ = [f_ for f_ in fs_ if f_[0].endswith('.used')]
+            okt = okt and len(used_) == 1 and used_[0][1] is True and all('.size()' in f_[0] and f_[1] for f_ in fs_ if f_ not in used_)
+        ctx.check(okt, R, 'assert_none_unused|throws-on-unused', anu, 'every entry is tested; an unused one throws invalid_argument', 'assert_none_unused no longer tests every entry / throws invalid_argument')
 
     # ---------------- R3
-    R = 'C17-R3'
-    pis = [f for f in w.functions if strip_targs(w.qualname(f)) == 'phosg::Arguments::parse_int' and not is_dependent_pattern(f, w)]
-    by_t = {}
-    for f in pis:
-        by_t.setdefault(targs(f)[0], f)
-    masks = {}
-    for tag, bits, sg in INT_TYPES_:
-        vd = next((v for v in w.by_id.values() if v.get('kind') == 'VarDecl' and v.get('name') == 'mask_' + tag), None)
-        ctx.require(vd is not None, 'witness mask_%s missing' % tag)
-        m = re.search(r'Val<(\d+)>', vd.get('type', {}).get('desugaredQualType', '') or vd.get('type', {}).get('qualType', ''))
-        ctx.require(m is not None, 'cannot read mask_for_type from %s' % vd.get('type'))
-        masks[tag] = int(m.group(1))
-        ctx.check(masks[tag] == (1 << bits) - 1, R, 'mask_for_type|' + tag, vd, 'mask_for_type = 2^%d - 1' % bits, 'mask_for_type for the %d-bit type is %#x' % (bits, masks[tag]))
-    I = TableEval(w)
-    for tag, bits, sg in INT_TYPES_:
-        native = NATIVE[('s' if sg else 'u', bits)]
-        f = by_t.get(native)
-        ctx.require(f is not None, 'parse_int<%s> not instantiated (have %s)' % (native, sorted(by_t)))
-        lab = 'parse_int<%s>' % native
-        ctx.fn('Arguments::' + lab)
-        check_no_goto(f)
-        body = body_of(f)
-        # bases and the "no digits" test
-        sw = [x for x in walk(body) if x.get('kind') == 'SwitchStmt']
-        bases = []
-        nodig = 0
-        for c in walk(sw[0]) if sw else []:
-            if c.get('kind') == 'CallExpr' and call_name(c) == 'strtoull':
-                bases.append(int_value(call_args(c)[2]))
-                okargs = nf(call_args(c)[0]) == 'text.c_str()' and nf(call_args(c)[1]) == '&conversion_end'
-                if not okargs:
-                    bases.append('bad-args')
-        for x in walk(sw[0]) if sw else []:
-            if x.get('kind') == 'IfStmt' and nf(if_parts(x)[0]) in ('(conversion_end == text.c_str())', '(text.c_str() == conversion_end)') and any(t.get('kind') == 'CXXThrowExpr' and 'invalid_argument' in (dtype(kids(t)[0]) or '') for t in walk(if_parts(x)[1])):
-                nodig += 1
-        if not bases:
-            # the switch may only select the base; the conversion and the no-digits test follow once
-            from guard import subst_locals
-            outer = [c for c in walk(body) if c.get('kind') == 'CallExpr' and call_name(c) == 'strtoull' and not (sw and any(c is y for y in walk(sw[0])))]
-            if len(outer) == 1 and sw:
-                bv_ = ref_decl(call_args(outer[0])[2])
-                if bv_ is not None:
-                    bases = [int_value(x['inner'][1]) for x in walk(sw[0]) if x.get('kind') == 'BinaryOperator' and x.get('opcode') == '=' and (ref_decl(x['inner'][0]) or {}).get('id') == bv_.get('id')]
-                    a0 = subst_locals(nf(call_args(outer[0])[0]), outer[0])
-                    endv = nf(call_args(outer[0])[1])
-                    if a0 != 'text.c_str()' or not endv.startswith('&'):
+    with ctx.section('C17-R3', 'C17'):
+        R = 'C17-R3'
+        pis = [f for f in w.functions if strip_targs(w.qualname(f)) == 'phosg::Arguments::parse_int' and not is_dependent_pattern(f, w)]
+        by_t = {}
+        for f in pis:
+            by_t.setdefault(targs(f)[0], f)
+        masks = {}
+        for tag, bits, sg in INT_TYPES_:
+            vd = next((v for v in w.by_id.values() if v.get('kind') == 'VarDecl' and v.get('name') == 'mask_' + tag), None)
+            ctx.require(vd is not None, 'witness mask_%s missing' % tag)
+            m = re.search(r'Val<(\d+)>', vd.get('type', {}).get('desugaredQualType', '') or vd.get('type', {}).get('qualType', ''))
+            ctx.require(m is not None, 'cannot read mask_for_type from %s' % vd.get('type'))
+            masks[tag] = int(m.group(1))
+            ctx.check(masks[tag] == (1 << bits) - 1, R, 'mask_for_type|' + tag, vd, 'mask_for_type = 2^%d - 1' % bits, 'mask_for_type for the %d-bit type is %#x' % (bits, masks[tag]))
+        I = TableEval(w)
+        for tag, bits, sg in INT_TYPES_:
+            native = NATIVE[('s' if sg else 'u', bits)]
+            f = by_t.get(native)
+            ctx.require(f is not None, 'parse_int<%s> not instantiated (have %s)' % (native, sorted(by_t)))
+            lab = 'parse_int<%s>' % native
+            ctx.fn('Arguments::' + lab)
+            check_no_goto(f)
+            body = body_of(f)
+            # bases and the "no digits" test
+            sw = [x for x in walk(body) if x.get('kind') == 'SwitchStmt']
+            bases = []
+            nodig = 0
+            for c in walk(sw[0]) if sw else []:
+                if c.get('kind') == 'CallExpr' and call_name(c) == 'strtoull':
+                    bases.append(int_value(call_args(c)[2]))
+                    okargs = nf(call_args(c)[0]) == 'text.c_str()' and nf(call_args(c)[1]) == '&conversion_end'
+                    if not okargs:
                         bases.append('bad-args')
-                    for x in stmts_of(body):
-                        if x.get('kind') == 'IfStmt' and x['_off'] > outer[0]['_off'] and subst_locals(nf(if_parts(x)[0]), x) in ('(%s == text.c_str())' % endv[1:], '(text.c_str() == %s)' % endv[1:]) and not falls_through(if_parts(x)[1]) and \
-                           any(t.get('kind') == 'CXXThrowExpr' and 'invalid_argument' in (dtype(kids(t)[0]) or '') for t in walk(if_parts(x)[1])):
-                            nodig = 4
-        ctx.check(bases == [0, 16, 10, 8] and nodig == 4, R, lab + '|bases-and-no-digits', f, 'DEFAULT/HEX/DECIMAL/OCTAL -> base 0/16/10/8, each rejecting text without digits', 'bases are %s, %d of 4 cases reject digit-less text' % (bases, nodig))
-        trail = [x for x in stmts_of(body) if x.get('kind') == 'IfStmt' and nf(if_parts(x)[0]) in ('(0 != *conversion_end)', '(*conversion_end != 0)') and not falls_through(if_parts(x)[1])]
-        rets = [r for r in walk(body) if r.get('kind') == 'ReturnStmt']
-        ctx.check(len(trail) == 1 and all(r['_off'] > trail[0]['_off'] for r in rets) and sw and trail[0]['_off'] > sw[0]['_off'], R, lab + '|trailing-characters', trail[0] if trail else f, 'text with anything after the numeral is rejected before any return', 'trailing characters after the numeral are not rejected')
-        # range test on boundary values: run the statements after the trailing-characters test
-        vdecl = next((v for v in walk(body) if v.get('kind') == 'VarDecl' and v.get('name') == 'v'), None)
-        tail = [s for s in stmts_of(body) if trail and s['_off'] > trail[0]['_off']]
-        full = (1 << 64) - 1
+            for x in walk(sw[0]) if sw else []:
+                if x.get('kind') == 'IfStmt' and nf(if_parts(x)[0]) in ('(conversion_end == text.c_str())', '(text.c_str() == conversion_end)') and any(t.get('kind') == 'CXXThrowExpr' and 'invalid_argument' in (dtype(kids(t)[0]) or '') for t in walk(if_parts(x)[1])):
+                    nodig += 1
+            if not bases:
+                # the switch may only select the base; the conversion and the no-digits test follow once
+                from guard import subst_locals
+                outer = [c for c in walk(body) if c.get('kind') == 'CallExpr' and call_name(c) == 'strtoull' and not (sw and any(c is y for y in walk(sw[0])))]
+                if len(outer) == 1 and sw:
+                    bv_ = ref_decl(call_args(outer[0])[2])
+                    if bv_ is not None:
+                        bases = [int_value(x['inner'][1]) for x in walk(sw[0]) if x.get('kind') == 'BinaryOperator' and x.get('opcode') == '=' and (ref_decl(x['inner'][0]) or {}).get('id') == bv_.get('id')]
+                        a0 = subst_locals(nf(call_args(outer[0])[0]), outer[0])
+                        endv = nf(call_args(outer[0])[1])
+                        if a0 != 'text.c_str()' or not endv.startswith('&'):
+                            bases.append('bad-args')
+                        for x in stmts_of(body):
+                            if x.get('kind') == 'IfStmt' and x['_off'] > outer[0]['_off'] and subst_locals(nf(if_parts(x)[0]), x) in ('(%s == text.c_str())' % endv[1:], '(text.c_str() == %s)' % endv[1:]) and not falls_through(if_parts(x)[1]) and \
+                               any(t.get('kind') == 'CXXThrowExpr' and 'invalid_argument' in (dtype(kids(t)[0]) or '') for t in walk(if_parts(x)[1])):
+                                nodig = 4
+            ctx.check(bases == [0, 16, 10, 8] and nodig == 4, R, lab + '|bases-and-no-digits', f, 'DEFAULT/HEX/DECIMAL/OCTAL -> base 0/16/10/8, each rejecting text without digits', 'bases are %s, %d of 4 cases reject digit-less text' % (bases, nodig))
+            trail = [x for x in stmts_of(body) if x.get('kind') == 'IfStmt' and nf(if_parts(x)[0]) in ('(0 != *conversion_end)', '(*conversion_end != 0)') and not falls_through(if_parts(x)[1])]
+            rets = [r for r in walk(body) if r.get('kind') == 'ReturnStmt']
+            ctx.check(len(trail) == 1 and all(r['_off'] > trail[0]['_off'] for r in rets) and sw and trail[0]['_off'] > sw[0]['_off'], R, lab + '|trailing-characters', trail[0] if trail else f, 'text with anything after the numeral is rejected before any return', 'trailing characters after the numeral are not rejected')
+            # range test on boundary values: run the statements after the trailing-characters test
+            vdecl = next((v for v in walk(body) if v.get('kind') == 'VarDecl' and v.get('name') == 'v'), None)
+            tail = [s for s in stmts_of(body) if trail and s['_off'] > trail[0]['_off']]
+            full = (1 << 64) - 1
 
-        def verdict(value):
-            """'accept' / 'reject' / None for the 64-bit pattern `value` produced by strtoull"""
-            env = {}
-            if vdecl is not None:
-                env[vdecl['id']] = const_bv(value, 64, True)
-            I.ov = {'mask_for_type': masks[tag], 'is_unsigned_v': 0 if sg else 1, 'std::is_unsigned_v': 0 if sg else 1}
+            def verdict(value):
+                """'accept' / 'reject' / None for the 64-bit pattern `value` produced by strtoull"""
+                env = {}
+                if vdecl is not None:
+                    env[vdecl['id']] = const_bv(value, 64, True)
+                I.ov = {'mask_for_type': masks[tag], 'is_unsigned_v': 0 if sg else 1, 'std::is_unsigned_v': 0 if sg else 1}
 
-            def run(stmts):
-                for s in stmts:
-                    s0 = strip(s)
-                    k = s0.get('kind')
-                    if k == 'DeclStmt':
-                        for vd in kids(s0):
-                            if vd.get('kind') == 'VarDecl' and kids(vd):
-                                env[vd['id']] = I.cast(I.eval(kids(vd)[-1], env), dtype(vd))
-                    elif k == 'CompoundStmt':
-                        r = run(list(kids(s0)))
-                        if r:
-                            return r
-                    elif k == 'IfStmt':
-                        cond, then, els = if_parts(s0)
-                        t = I.truth(I.eval(cond, env))
-                        if t not in (0, 1):
-                            return 'undecided:' + nf(cond)[:60]
-                        br = then if t == 1 else els
-                        if br is not None:
-                            r = run([br])
+                def run(stmts):
+                    for s in stmts:
+                        s0 = strip(s)
+                        k = s0.get('kind')
+                        if k == 'DeclStmt':
+                            for vd in kids(s0):
+                                if vd.get('kind') == 'VarDecl' and kids(vd):
+                                    env[vd['id']] = I.cast(I.eval(kids(vd)[-1], env), dtype(vd))
+                        elif k == 'CompoundStmt':
+                            r = run(list(kids(s0)))
                             if r:
                                 return r
-                    elif k == 'ReturnStmt':
-                        return 'accept'
-                    elif k == 'CXXThrowExpr':
-                        return 'reject'
-                return None
-            return run(tail)
-        if sg:
-            cases = [(0, True), ((1 << (bits - 1)) - 1, True), (full, True)]
-            if bits < 64:
-                cases.append((full - (1 << (bits - 1)) + 1, True))   # the type minimum (for 64 bits the property only promises magnitudes below 2^63)
-            if bits < 64:
-                cases += [(1 << (bits - 1), False), (full - (1 << (bits - 1)), False), (1 << 40 if bits < 40 else 1 << 62, bits >= 64)]
-        else:
-            cases = [(0, True), ((1 << bits) - 1, True)]
-            if bits < 64:
-                cases += [(1 << bits, False), (full, False), (1 << 63, False)]
-        for val, want in cases:
-            got = verdict(val)
-            signed_txt = val - (1 << 64) if val >> 63 else val
-            ctx.check(got == ('accept' if want else 'reject'), R, '%s|value %#x' % (lab, val), f, '%d -> %s' % (signed_txt if sg else val, got),
-                      '%s %s the numeral whose 64-bit pattern is %#x (%d as a signed value): it %s fit %s' % (lab, 'rejects' if got == 'reject' else ('accepts' if got == 'accept' else 'cannot be decided for (' + str(got) + ')'), val, signed_txt, 'does' if want else 'does not', native))
+                        elif k == 'IfStmt':
+                            cond, then, els = if_parts(s0)
+                            t = I.truth(I.eval(cond, env))
+                            if t not in (0, 1):
+                                return 'undecided:' + nf(cond)[:60]
+                            br = then if t == 1 else els
+                            if br is not None:
+                                r = run([br])
+                                if r:
+                                    return r
+                        elif k == 'ReturnStmt':
+                            return 'accept'
+                        elif k == 'CXXThrowExpr':
+                            return 'reject'
+                    return None
+                return run(tail)
+            if sg:
+                cases = [(0, True), ((1 << (bits - 1)) - 1, True), (full, True)]
+                if bits < 64:
+                    cases.append((full - (1 << (bits - 1)) + 1, True))   # the type minimum (for 64 bits the property only promises magnitudes below 2^63)
+                if bits < 64:
+                    cases += [(1 << (bits - 1), False), (full - (1 << (bits - 1)), False), (1 << 40 if bits < 40 else 1 << 62, bits >= 64)]
+            else:
+                cases = [(0, True), ((1 << bits) - 1, True)]
+                if bits < 64:
+                    cases += [(1 << bits, False), (full, False), (1 << 63, False)]
+            for val, want in cases:
+                got = verdict(val)
+                signed_txt = val - (1 << 64) if val >> 63 else val
+                ctx.check(got == ('accept' if want else 'reject'), R, '%s|value %#x' % (lab, val), f, '%d -> %s' % (signed_txt if sg else val, got),
+                          '%s %s the numeral whose 64-bit pattern is %#x (%d as a signed value): it %s fit %s' % (lab, 'rejects' if got == 'reject' else ('accepts' if got == 'accept' else 'cannot be decided for (' + str(got) + ')'), val, signed_txt, 'does' if want else 'does not', native))
 
     # ---------------- R4
-    R = 'C17-R4'
-    for f in accessors:
-        if f['name'] != 'get':
-            continue
-        ps = params_of(f)
-        ta = targs(f)
-        lab = 'get<%s>(%s)' % (','.join(t.replace('std::', '') for t in ta), ','.join((qtype(p) or '').replace('std::', '') for p in ps))
-        trys = [x for x in walk(body_of(f)) if x.get('kind') == 'CXXTryStmt']
-        has_default = any(p.get('name') == 'default_value' for p in ps)
-        if has_default:
-            hs = [h for t in trys for h in kids(t)[1:]]
-            types = [(qtype(kids(h)[0]) or '...') if kids(h) and kids(h)[0].get('kind') == 'VarDecl' else '...' for h in hs]
-            ok = bool(hs) and all('out_of_range' in t for t in types)
-            key = lab + '|default-catches-out_of_range-only'
+    with ctx.section('C17-R4', 'C17'):
+        R = 'C17-R4'
+        for f in accessors:
+            if f['name'] != 'get':
+                continue
+            ps = params_of(f)
+            ta = targs(f)
+            lab = 'get<%s>(%s)' % (','.join(t.replace('std::', '') for t in ta), ','.join((qtype(p) or '').replace('std::', '') for p in ps))
+            trys = [x for x in walk(body_of(f)) if x.get('kind') == 'CXXTryStmt']
+            has_default = any(p.get('name') == 'default_value' for p in ps)
+            if has_default:
+                hs = [h for t in trys for h in kids(t)[1:]]
+                types = [(qtype(kids(h)[0]) or '...') if kids(h) and kids(h)[0].get('kind') == 'VarDecl' else '...' for h in hs]
+                ok = bool(hs) and all('out_of_range' in t for t in types)
+                key = lab + '|default-catches-out_of_range-only'
+                if key in [o.key for o in ctx.obs]:
+                    continue
+                ctx.check(ok, R, key, f, 'only a missing argument falls back to the default', 'the default-value overload catches %s: malformed text is silently replaced by the default' % types)
+        fl = [f for f in w.functions if strip_targs(w.qualname(f)) == 'phosg::Arguments::parse_float' and not is_dependent_pattern(f, w)]
+        ctx.require(len(fl) >= 2, 'parse_float instantiations not found')
+        seenf = set()
+        for f in fl:
+            t = targs(f)[0]
+            if t in seenf:
+                continue
+            seenf.add(t)
+            body = body_of(f)
+            th = [x for x in walk(body) if x.get('kind') == 'CXXThrowExpr']
+            conds = sorted(nf(if_parts(x)[0]) for x in stmts_of(body) if x.get('kind') == 'IfStmt')
+            ok = len(th) == 2 and all('invalid_argument' in (dtype(kids(x)[0]) or '') for x in th) and conds == sorted(['(conversion_end == text.c_str())', '(*conversion_end != 0)'])
+            ctx.check(ok, R, 'parse_float<%s>|complete-literal' % t, f, 'no digits / trailing characters -> invalid_argument', 'parse_float checks are %s' % conds)
+        for t_, f in by_t.items():
+            th = [x for x in walk(body_of(f)) if x.get('kind') == 'CXXThrowExpr']
+            types = sorted({(dtype(kids(x)[0]) or '').replace('std::', '') for x in th})
+            ctx.check(set(types) <= {'invalid_argument', 'logic_error'} and 'invalid_argument' in types, R, 'parse_int<%s>|throw-types' % t_, f, 'malformed or out-of-range text -> invalid_argument', 'parse_int throws %s' % types)
+        gs = [f for f in accessors if f['name'] == 'get' and targs(f) and 'basic_string' in targs(f)[0] + 'string' and len(params_of(f)) == 2]
+        for f in gs:
+            key = 'get<string>(%s)|missing-is-out_of_range' % (qtype(params_of(f)[0]) or '').replace('std::', '')
             if key in [o.key for o in ctx.obs]:
                 continue
-            ctx.check(ok, R, key, f, 'only a missing argument falls back to the default', 'the default-value overload catches %s: malformed text is silently replaced by the default' % types)
-    fl = [f for f in w.functions if strip_targs(w.qualname(f)) == 'phosg::Arguments::parse_float' and not is_dependent_pattern(f, w)]
-    ctx.require(len(fl) >= 2, 'parse_float instantiations not found')
-    seenf = set()
-    for f in fl:
-        t = targs(f)[0]
-        if t in seenf:
-            continue
-        seenf.add(t)
-        body = body_of(f)
-        th = [x for x in walk(body) if x.get('kind') == 'CXXThrowExpr']
-        conds = sorted(nf(if_parts(x)[0]) for x in stmts_of(body) if x.get('kind') == 'IfStmt')
-        ok = len(th) == 2 and all('invalid_argument' in (dtype(kids(x)[0]) or '') for x in th) and conds == sorted(['(conversion_end == text.c_str())', '(*conversion_end != 0)'])
-        ctx.check(ok, R, 'parse_float<%s>|complete-literal' % t, f, 'no digits / trailing characters -> invalid_argument', 'parse_float checks are %s' % conds)
-    for t_, f in by_t.items():
-        th = [x for x in walk(body_of(f)) if x.get('kind') == 'CXXThrowExpr']
-        types = sorted({(dtype(kids(x)[0]) or '').replace('std::', '') for x in th})
-        ctx.check(set(types) <= {'invalid_argument', 'logic_error'} and 'invalid_argument' in types, R, 'parse_int<%s>|throw-types' % t_, f, 'malformed or out-of-range text -> invalid_argument', 'parse_int throws %s' % types)
-    gs = [f for f in accessors if f['name'] == 'get' and targs(f) and 'basic_string' in targs(f)[0] + 'string' and len(params_of(f)) == 2]
-    for f in gs:
-        key = 'get<string>(%s)|missing-is-out_of_range' % (qtype(params_of(f)[0]) or '').replace('std::', '')
-        if key in [o.key for o in ctx.obs]:
-            continue
-        th = [x for x in walk_deep(body_of(f), w) if x.get('kind') == 'CXXThrowExpr' and kids(x)]
-        types = {(dtype(kids(x)[0]) or '').replace('std::', '') for x in th}
-        ctx.check('out_of_range' in types and types <= {'out_of_range', 'logic_error'}, R, key, f, 'a missing argument raises out_of_range', 'string getter throws %s' % sorted(types))
+            th = [x for x in walk_deep(body_of(f), w) if x.get('kind') == 'CXXThrowExpr' and kids(x)]
+            types = {(dtype(kids(x)[0]) or '').replace('std::', '') for x in th}
+            ctx.check('out_of_range' in types and types <= {'out_of_range', 'logic_error'}, R, key, f, 'a missing argument raises out_of_range', 'string getter throws %s' % sorted(types))
     ctx.note('Instantiated for uint8..int64, float, double, bool, std::string via witness/c17.cc. Not decided: strtoull saturation for magnitudes >= 2^64; shell-like tokenisation (see C08).')
